@@ -36,8 +36,8 @@ FileKinds == Kinds \cap {"file", "zipfile"}
 ExtFor(k) == IF k \in {"file", "zipfile"} THEN "q1" ELSE ""
 \* body: what the document's bytes are made of - "ascii", "8bit" (UTF-8 text, for messages with a declared charset and
 \* Content-Transfer-Encoding: 8bit), "8bithdr" (messages only: a raw 8-bit Subject header)
-CaseOf(fam, k, e, n, f, sc) == [fam |-> fam, kind |-> k, ext |-> e, size |-> n, form |-> f, sc |-> sc, body |-> "ascii"]
-DocCase(fam, k, e, n, f, b) == [fam |-> fam, kind |-> k, ext |-> e, size |-> n, form |-> f, sc |-> NoSc, body |-> b]
+CaseOf(fam, k, e, n, f, sc) == [fam |-> fam, kind |-> k, ext |-> e, size |-> n, form |-> f, sc |-> sc, body |-> "ascii", link |-> "none"]
+DocCase(fam, k, e, n, f, b) == [fam |-> fam, kind |-> k, ext |-> e, size |-> n, form |-> f, sc |-> NoSc, body |-> b, link |-> "none"]
 
 \* the case families, enumerated by nested quantifiers (no big set is built)
 InitCase ==
@@ -48,6 +48,10 @@ InitCase ==
              /\ WellFormedContent(ls, b) /\ (n = 0 => b)
              /\ c = CaseOf("content", k, ExtFor(k), 6, f,
                           [i \in 1..NExt |-> IF i = j THEN [p |-> TRUE, lines |-> ls, nl |-> b] ELSE Absent])
+    \* items that have side-car files AND an entry in a link file / .cap file of their directory
+    \/ \E k \in Kinds \cap {"file", "dir"}, f \in Forms, S \in SUBSET (1..NExt), lk \in LinkKinds \ {"none"} :
+          c = [CaseOf("linked", k, ExtFor(k), 6, f, [i \in 1..NExt |-> IF i \in S THEN DefaultContent(i) ELSE Absent])
+                  EXCEPT !.link = lk]
     \* documents of every size and make-up, through `!`, `$` and `+`
     \/ \E k \in FileKinds, e \in Exts, n \in Sizes, f \in AllForms, b \in {"ascii", "8bit"} : c = DocCase("size", k, e, n, f, b)
     \/ \E n \in Sizes, f \in AllForms, b \in {"ascii", "8bit"} : c = DocCase("size", "gzfile", "txt", n, f, b)
@@ -63,11 +67,12 @@ SizeOf(x) == IF KnownSize(x.kind) THEN x.size ELSE -1
 Front(s) == SubSeq(s, 1, Len(s) - 1)
 Present(x) == {i \in 1..NExt : x.sc[i].p}
 
-Init == InitCase /\ st = "new" /\ out = [names |-> <<>>, sblocks |-> <<>>, views |-> "", len |-> "",
+Init == InitCase /\ st = "new" /\ out = [names |-> <<>>, iblocks |-> <<>>, sblocks |-> <<>>, views |-> "", len |-> "",
                                             tags |-> [stripped |-> FALSE, lastblank |-> FALSE, printable |-> TRUE, capped |-> FALSE]]
 Compute ==
     /\ st = "new" /\ st' = "done" /\ UNCHANGED c
-    /\ out' = [names |-> CodeBlockNames(c.kind, c.sc),
+    /\ out' = [names |-> CodeBlockNames(c.kind, c.sc, c.form, c.link),
+               iblocks |-> ItemBlocks(c.kind, c.sc, c.form, c.link),
                sblocks |-> SidecarBlocks(c.kind, c.sc),
                views |-> ViewsLine(CodeMime(c.kind, c.ext), SizeOf(c)),
                len |-> LenHeader(SizeOf(c)),
@@ -106,6 +111,10 @@ M_BigShape == \A i \in Present(c) : TotalLen(c.sc[i].lines) >= Hint =>
 M_LastBlankLineLost == Done => \A k \in 1..Len(PresentSeq) :
                      LET s == c.sc[PresentSeq[k]] IN
                      (Printable(s.lines) /\ LastBlank(s.lines)) => out.sblocks[k].lines = Prefixed(Front(RefLines(s.lines)))
+\* a link-file entry never takes a side-car block away: every block read from a side-car file is among the item's
+\* blocks, except that an Abstract= of the link entry stands in for the .abstract file
+M_LinkKeepsSidecars == Done => \A k \in 1..Len(out.sblocks) :
+                          out.sblocks[k].name # "+ABSTRACT" => \E j \in 1..Len(out.iblocks) : out.iblocks[j] = out.sblocks[k]
 M_ViewsTruthful == Done => ViewsLineOk(out.views, MimesOf(c.kind, c.ext), SizeOf(c), KnownSize(c.kind))
 \* an entry without a size never states one and never announces a length (virtual items, decompressed files, menus)
 M_NoSizeNoClaim == Done => (~KnownSize(c.kind) => (out.len = "+-2" /\ ~TX!Contains(out.views, "<")))
